@@ -1,7 +1,7 @@
 #!/bin/bash
 # usage: selftest/harvest.sh <Cxx> <name>   -- takes the mutation from /tmp/seed/<Cxx>, verifies it (tests pass, demo fails with / passes without), stores it under seeded/<name>
 set -u
-ID=$1; NAME=$2; WT=/tmp/seed/$ID; OUT=/verif/seeded/$NAME; PID=${ID#R2_}; PID=${PID#R3_}; PID=${PID#R4_}; PID=${PID#R5_}; PID=${PID#R6_}; PID=${PID#R7_}; PID=${PID#R8_}; PID=${PID#R9_}; PID=${PID#RA_}; PID=${PID#RB_}
+ID=$1; NAME=$2; WT=/tmp/seed/$ID; OUT=/verif/seeded/$NAME; PID=${ID#R2_}; PID=${PID#R3_}; PID=${PID#R4_}; PID=${PID#R5_}; PID=${PID#R6_}; PID=${PID#R7_}; PID=${PID#R8_}; PID=${PID#R9_}; PID=${PID#RA_}; PID=${PID#RB_}; PID=${PID#RC_}
 mkdir -p $OUT
 git -C $WT diff -- src > $OUT/patch.diff
 cp $WT/demo_$PID.py $OUT/demo.py 2>/dev/null || { echo "no demo"; exit 1; }
